@@ -24,9 +24,11 @@ def t1(sx, hr, size, prefix, rsv, oldlens, lens, long):
     return ndefflow.roundtrip(sx, w, n)
 
 
-def t3(sx, nbr, nbw, nmaxb, oldlens, lens, emulated, ic_code=0xEE):
+def t3(sx, nbr, nbw, nmaxb, oldlens, lens, emulated, ic_code=0xEE, concrete=False):
     oldlen = sx.pick("oldlen", [o for o in oldlens if o <= nmaxb * 16])
-    w = worlds.T3World(sx, nbr, nbw, nmaxb, oldlen, emulated=emulated, ic_code=ic_code)
+    w = worlds.T3World(sx, nbr, nbw, nmaxb, oldlen, emulated=emulated, ic_code=ic_code,
+                       fill=0x21 if concrete else None)
+    w.concrete_msg = concrete
     if ic_code != 0xEE:
         sx.reach("felica_vendor_class")
     n = sx.pick("n", [x for x in lens_for(w.cap, lens)])
@@ -94,6 +96,11 @@ def partitions(tier):
             parts.append(dict(name="t2:%d:%s:short" % (S, prefix or "-"), fn="t2",
                               params=dict(S=S, prefix=prefix, rsv=rsv, oldlens=[0, 255],
                                           lens=[0, 1, 5], long=False)))
+    # two sectors: a message that crosses the 1 KiB sector boundary (SECTOR SELECT
+    # in the read and in the write path)
+    parts.append(dict(name="t2:2032:-:sector", fn="t2",
+                      params=dict(S=2032, prefix="", rsv=[], oldlens=[0], lens=[1003, 1004, 1100],
+                                  long=True)))
     # ---- NXP products: the vendor class from activate() (GET_VERSION), with
     # the factory lock control TLV (dynamic lock bytes behind the data area)
     for nxp, rsv in (("NTAG213", (160, 2)), ("NTAG215", (520, 2)), ("NTAG216", (896, 2)),
@@ -137,6 +144,11 @@ def partitions(tier):
                               fn="t3", params=dict(nbr=nbr, nbw=nbw, nmaxb=nmaxb, oldlens=[0, 5, 17],
                                                    lens=[0, 1, 15, 16, 17, 32, "cap-1", "cap", "cap+1"],
                                                    emulated=emulated)))
+    # a data area of 64 KiB and more: Ln needs its third byte (contents are
+    # concrete here, the subject is the length arithmetic)
+    parts.append(dict(name="t3:64k", fn="t3",
+                      params=dict(nbr=15, nbw=12, nmaxb=4100, oldlens=[0], emulated=False,
+                                  lens=[65535, 65536, "cap"], concrete=True)))
     # FeliCa Lite / Lite-S vendor classes (from the IC code in the polling response)
     for ic in (0xF0, 0xF1):
         parts.append(dict(name="t3:felica-lite:%02x" % ic, fn="t3",
